@@ -211,6 +211,9 @@ struct NodeCfg {
     bool collect{false};          // real-time collecting sink: counts delivered values, stamps the global sequence
     bool has_latch{false};
     std::int64_t latch_val{0};
+    bool has_loop{false};            // real-time sink: on seeing `loop_on`, try_send `loop_v` into push source `loop_src` FROM THE EVALUATION THREAD
+    std::int64_t loop_on{0}, loop_v{0};
+    std::string loop_src;
 };
 
 bool in_list(const JV *lst, std::int64_t x) { if (!lst || !lst->is_arr()) return false; for (auto &e : lst->a) if (e.as_int() == x) return true; return false; }
@@ -299,6 +302,7 @@ WiringPortRef wire_node(Scope &sc, const JV &st, std::vector<WiringPortRef> ins)
     cfg->mirror_in = st.int_or("mirror", -1);
     cfg->collect = st.bool_or("collect", false);
     if (st.has("latch_on")) { cfg->has_latch = true; cfg->latch_val = st.at("latch_on").as_int(); }
+    if (auto *l = st.get("loop_send")) { cfg->has_loop = true; cfg->loop_on = l->at("on").as_int(); cfg->loop_v = l->at("v").as_int(); cfg->loop_src = l->str_or("src", "ps"); }
 
     auto &reg = TypeRegistry::instance();
     NodeTypeMetaData m;
@@ -395,6 +399,15 @@ WiringPortRef wire_node(Scope &sc, const JV &st, std::vector<WiringPortRef> ins)
             extra("seq"); e += std::to_string(g_ctx->seq.fetch_add(1) + 1);
             g_ctx->delivered.fetch_add(n);
             g_ctx->last_value.store(first_val);
+            if (cfg->has_loop && first_val == cfg->loop_on) {
+                bool ok = false;
+                const std::int64_t lsb = g_ctx->seq.fetch_add(1) + 1;
+                auto it = g_ctx->senders.find(cfg->loop_src);
+                if (it != g_ctx->senders.end()) { try { ok = static_cast<PushSourceSender *>(it->second.get())->try_send(Value{Int{cfg->loop_v}}); } catch (...) {} }
+                if (ok) g_ctx->loop_accepted.fetch_add(1);
+                const std::int64_t lsa = g_ctx->seq.fetch_add(1) + 1;
+                extra("loop"); e += std::string{"["} + (ok ? "true" : "false") + "," + std::to_string(lsb) + "," + std::to_string(lsa) + "]";
+            }
         }
         bool thrown = false;
         if (cfg->thr.is_obj()) {
